@@ -69,6 +69,13 @@ def run(ctx):
             ctx.violation("an emitter crashed on some address: " + o[-600:], {"family": "jump", "kind": "crash", "pkg": pkg, "tail": o[-1500:]})
             continue
         all_evs += len(validate(ctx, out, pkg))
+    # the context register of the entry jump after repeated Applies of closures of one literal (public API, real image)
+    from lib.replay import drv_binary
+    # (with logging off: under debug logging the callback is wrapped and the loaded function value is the wrapper's - behaviour is C19's)
+    rc, o = ctx.run_bin(drv_binary(ctx), "^TestVerifEntryContext$", env={"VERIF_OUT": "1", "VERIF_QUIET": "1"}, timeout=300)
+    if rc != 0:
+        ctx.violation("the entry jump does not carry the intended context register: " + o[-700:], {"family": "jump", "kind": "entry-context", "tail": o[-2000:]})
+    ctx.count(1)
     # the jump back from a trampoline as fixOriginFuncToTrampoline really lays it out behind the copied prologue: relocations of
     # real functions (and of TLC-enumerated prologue streams), judged by Trace_Reloc for the jump back (TailOk) and for the displacement of every relative form goom re-emits (the rest is C03's business)
     from checks import c03
